@@ -72,4 +72,38 @@ theorem returnsBoolean_published : ∀ n ∈ Mp.returnsBoolean, ∃ fd ∈ funcT
 theorem returnsNumber_published : ∀ n ∈ Mp.returnsNumber, ∃ fd ∈ funcTable, fd.name = n ∧ fd.returns = ("Number", "Single") := by decide
 theorem returnsString_published : ∀ n ∈ Mp.returnsString, ∃ fd ∈ funcTable, fd.name = n ∧ fd.returns = ("String", "Single") := by decide
 
+/-! axiom audit (one line per theorem: a theorem that no longer checks is missing from the output) -/
+#print axioms params_order
+#print axioms number_kinds
+#print axioms convert_covers_numbers
+#print axioms convert_follows_indirection
+#print axioms isNil_kinds
+#print axioms isEmptyValue_kinds
+#print axioms reset_restores_pool_mode
+#print axioms reset_installs_handler
+#print axioms deferred_clean_up
+#print axioms parse_rejects_empty
+#print axioms invalid_runes
+#print axioms unescape_rules_are_go_rules
+#print axioms escape_rules_are_go_rules
+#print axioms all_rules_well_formed
+#print axioms logic_table
+#print axioms logic_keywords
+#print axioms do_methods_do_not_write_receiver
+#print axioms caches_guarded
+#print axioms cache_skeleton
+#print axioms cache_values_are_functions_of_their_keys
+#print axioms shared_writes_only_in_CueValidate
+#print axioms package_state
+#print axioms closure_shape
+#print axioms base_paths
+#print axioms dependencies_field
+#print axioms root_fields_param_kinds
+#print axioms binding_is_diagonal
+#print axioms table_matches_binding
+#print axioms published_functions_are_known
+#print axioms known_functions_are_published
+#print axioms returnsBoolean_published
+#print axioms returnsNumber_published
+#print axioms returnsString_published
 end Mp.FactChecks
